@@ -404,6 +404,32 @@ class SpecEval(object):
             return AV(z3.Select(base.term, v.row), base.shape[1:], base.elem)
         return v
 
+    def eval_ref(self, n):
+        """the heap reference an expression denotes (no dereferencing), or None"""
+        if isinstance(n, ast.Name):
+            v = self.bound.get(n.id, self.env.get(n.id))
+            return v if isinstance(v, Ref) else None
+        if isinstance(n, ast.Attribute):
+            base = self.eval_ref(n.value)
+            if base is None:
+                return None
+            o = self.heap.get(base.loc)
+            if isinstance(o, Obj):
+                v = o.fields.get(n.attr)
+                return v if isinstance(v, Ref) else None
+            return None
+        if isinstance(n, ast.Call) and isinstance(n.func, ast.Name) and n.func.id == 'old' and self.old_env is not None:
+            sub = SpecEval(self.th, self.old_env, self.old_heap, self.old_env, self.old_heap, self.preds, self.bound)
+            return sub.eval_ref(n.args[0])
+        if isinstance(n, ast.Subscript):
+            base = self.ev(n.value)
+            if isinstance(base, tuple):
+                k = z3.simplify(to_z3(self.ev(n.slice)))
+                if z3.is_int_value(k):
+                    v = base[k.as_long()]
+                    return v if isinstance(v, Ref) else None
+        return None
+
     def ev_str(self, s):
         try:
             tree = ast.parse(s.strip(), mode='eval')
@@ -530,6 +556,13 @@ class SpecEval(object):
             if f == 'forall':
                 return z3.ForAll([kv], z3.Implies(rng, body))
             return z3.Exists([kv], z3.And(rng, body))
+        if f in ('fresh_loc', 'same_loc'):
+            refs = [self.eval_ref(a) for a in n.args]
+            if any(r is None for r in refs):
+                return z3.BoolVal(False)
+            if f == 'fresh_loc':
+                return z3.BoolVal(refs[0].loc in getattr(self, 'fresh_locs', ()) and refs[0].loc not in getattr(self, 'entry_locs', ()))
+            return z3.BoolVal(refs[0].loc == refs[1].loc)
         if f == 'old':
             if self.old_env is None:
                 raise ContractError('old() not available here')
